@@ -213,6 +213,10 @@ impl BinaryMatrix for SparseBinaryMatrix {
         // extra bit index math
         assert_eq!(start_col, self.width - self.num_dense_columns);
         out.clear();
+        // Without dense columns there is no word to scan
+        if self.num_dense_columns == 0 {
+            return;
+        }
         out.reserve(self.num_dense_columns);
         let physical_row = self.logical_row_to_physical[row] as usize;
         let (mut word, bit) =
